@@ -1410,8 +1410,11 @@ class BinaryOperator(SymbolicExpression, ABC):
         keys = cache.keys
         general_bindings = []
         seen = set()
-        # more general bindings first (the sort is stable, so outputs of equally specific bindings keep their order)
-        for output, is_false in sorted(retrieved, key=lambda r: sum(1 for k in keys if k in r[0])):
+        kept = set()
+        # decide with the more general bindings first (the sort is stable, so of equally specific bindings the first
+        # one is kept), but yield what is kept in the order of retrieval, which is the order of computation.
+        for index in sorted(range(len(retrieved)), key=lambda i: sum(1 for k in keys if k in retrieved[i][0])):
+            output, is_false = retrieved[index]
             binding = {k: output[k].id_ for k in keys if k in output}
             if any(flag == is_false and all(binding.get(k) == v for k, v in general.items())
                    for general, flag in general_bindings):
@@ -1423,7 +1426,10 @@ class BinaryOperator(SymbolicExpression, ABC):
                 if key in seen:
                     continue
                 seen.add(key)
-            yield output, is_false
+            kept.add(index)
+        for index, output_and_flag in enumerate(retrieved):
+            if index in kept:
+                yield output_and_flag
 
     def yield_from_cache(self, variables_sources, cache: IndexedCache) -> Iterable[Tuple[Dict[int, HashedValue], bool]]:
         entered = False
